@@ -515,8 +515,8 @@ def _batch(arg):
             v, n = check_prepared(it, [GRAPHS[0], GRAPHS[3], GRAPHS[7]])
             nontriv += 1
         else:
-            q, label = it
-            v, n = check_stores(q, GRAPHS, label)
+            q, label = it[0], it[1]
+            v, n = check_stores(q, INDEX_GRAPHS if len(it) > 2 else GRAPHS, label)
             nontriv += 1
         viols += v
         evals += n
@@ -539,7 +539,21 @@ def store_queries(thorough):
     for agg in ("COUNT(*)", "COUNT(DISTINCT ?y)", "SUM(?y)", "MIN(?y)", "MAX(?y)"):
         out.append(("SELECT ?x (%s AS ?a) WHERE { ?x <%sq> ?y } GROUP BY ?x" % (agg, EX), "aggregate"))
     out.append(("SELECT DISTINCT ?y WHERE { ?x ?p ?y } ORDER BY ?y LIMIT 2", "modifiers"))
+    # every access path of a store: each of the 8 bound/unbound shapes of one triple pattern, and the shapes a join pushes into its second operand;
+    # run on every graph of <= 3 triples over {A,B} x {p,q} x {A,B} (two predicates between one pair of nodes, two subjects or objects sharing the rest)
+    a, b, pp = "<%sa>" % EX, "<%sb>" % EX, "<%sp>" % EX
+    for sj in ("?s", a):
+        for pr in ("?p", pp):
+            for ob in ("?o", b, a):
+                out.append(("SELECT * WHERE { %s %s %s }" % (sj, pr, ob), "access-path:%s%s%s" % ("s" if sj[0] != "?" else "-", "p" if pr[0] != "?" else "-", "o" if ob[0] != "?" else "-"), "index"))
+    out.append(("SELECT * WHERE { { ?o <%sq> ?n } { ?s ?p ?o } }" % EX, "access-path:pushed-object", "index"))
+    out.append(("SELECT * WHERE { { ?s <%sq> ?n } { ?s ?p ?o } }" % EX, "access-path:pushed-subject", "index"))
+    out.append(("SELECT * WHERE { { ?x <%sq> ?p } UNION { ?x <%sp> ?y } ?s ?p2 ?x }" % (EX, EX), "access-path:pushed-object", "index"))
     return out
+
+
+INDEX_GRAPHS = [list(c) for r in range(0, 4) for c in itertools.combinations(
+    [(s_, p_, o_) for s_ in (C04.A, C04.B) for p_ in (C04.P, C04.Q) for o_ in (C04.A, C04.B)], r)]
 
 
 def run(ctx):
